@@ -417,6 +417,7 @@ Eval(t, env) ==
            ELSE CASE t.s = "not" -> VBool(~Truthy(x))
                   [] t.s = "-" -> IF IsNum(x) THEN VInt(-x.n) ELSE Err("TypeError")
                   [] t.s = "+" -> IF IsNum(x) THEN VInt(x.n) ELSE Err("TypeError")
+                  [] t.s = "~" -> IF IsNum(x) THEN VInt(-x.n - 1) ELSE Err("TypeError")
                   [] OTHER -> Unm("unop")
       [] t.k = "boolop" ->
            LET RECURSIVE Go(_)
